@@ -1,6 +1,6 @@
 (* C16 — allocated pids and references are unique.  Only property theorems here. *)
 From EDP Require Import Base.Bytes Gen.PidConsts Gen.LockScope Dist.PidAlloc Dist.PidAllocFacts Conc.Interleave Conc.AllocConc.
-From EDP Require Codec.Decode Node.Node Node.CreationFacts.
+From EDP Require Codec.Decode Node.Node Node.CreationFacts Node.OwnIdFacts.
 From EDP Require Conc.RefConc.
 
 (* Any number k <= MAX_PROCESSES_PER_NODE * 2^32 (= 2^52 on the pinned tree) of consecutive allocations,
@@ -39,6 +39,13 @@ Proof. exact CreationFacts.run_creation. Qed.
 Theorem C16_spawned_pid_carries_the_node_creation : forall cfg name c conn ops st' pid,
   Node.step cfg (Node.run cfg (Node.node_init name c conn) ops) Node.OSpawn = (st', Node.UPid pid) -> Term.pcreation pid = c.
 Proof. exact CreationFacts.spawned_pid_carries_the_creation. Qed.
+
+(* ... and stays so: every process the node holds, at any point of any run (spawns, links, monitors, deliveries, exits,
+   inbound frames, calls), is identified by the node's own name and the creation the node was started with *)
+Theorem C16_live_processes_have_own_identifiers : forall name c cfg conn ops x,
+  In x (Node.n_procs (Node.run cfg (Node.node_init name c conn) ops)) ->
+  Term.pnode (Node.pp x) = name /\ Term.pcreation (Node.pp x) = c.
+Proof. exact OwnIdFacts.live_processes_have_own_identifiers. Qed.
 
 Theorem C16_refs_unique : forall k c, c < two32 -> 3 * N.of_nat k <= two32 -> NoDup (refs k c).
 Proof. exact refs_nodup. Qed.
